@@ -246,6 +246,21 @@ def prelude(extra_includes=()):
         L.append("#if __has_include(<%s>)\n#include <%s>\n#endif\n" % (h, h))
     L.append("#if defined(__clang__)\n#undef __clang__\n#endif\n#endif\n")
     L.append("#include <cnl/all.h>\n#include <cstdint>\n#include <limits>\n#include <type_traits>\n")
+    L.append("""namespace verif {
+// build a (possibly nested) CNL number whose innermost representation holds exactly v
+template<class T, class V> constexpr auto mk(V v) {
+    if constexpr (cnl::is_composite_v<T>) {
+        using R = cnl::_impl::rep_of_t<T>;
+        return cnl::_impl::from_rep<T>(mk<R>(v));
+    } else {
+        return static_cast<T>(v);
+    }
+}
+template<class T> struct deep_rep { using type = T; };
+template<class T> requires cnl::is_composite_v<T> struct deep_rep<T> { using type = typename deep_rep<cnl::_impl::rep_of_t<T>>::type; };
+template<class T> using deep_rep_t = typename deep_rep<T>::type;
+}
+""")
     for h in extra_includes:
         L.append("#include <%s>\n" % h)
     return "".join(L)
